@@ -291,7 +291,7 @@ impl<'a, 'b> ParserState<'a, 'b> {
                 if token_id > L::UNQUOTED || token_id == L(0xb) {
                     // 65-90% of keys are tokens
                     // 5% of these keys are id (0xb)
-                    if token_id != L::F64 && token_id != L::U64 {
+                    if token_id != L::F64 && token_id != L::U64 && token_id != L::I64 {
                         self.token_tape.alloc().init(BinaryToken::Token(token_id.0));
 
                         let (d2, token_id2) = self.parse_next_id(d)?;
@@ -362,7 +362,8 @@ impl<'a, 'b> ParserState<'a, 'b> {
                                     parse_array_field!(parse_f32, L::F32);
                                 } else if (token_id4 > L::UNQUOTED
                                     && token_id4 != L::F64
-                                    && token_id4 != L::U64)
+                                    && token_id4 != L::U64
+                                    && token_id4 != L::I64)
                                     || token_id4 == L(0xb)
                                 {
                                     self.token_tape
@@ -420,7 +421,11 @@ impl<'a, 'b> ParserState<'a, 'b> {
                             (d, token_id) = self.parse_next_id(d4)?;
 
                             // Expect an object that follows a quoted string to start with a token
-                            if token_id > L::UNQUOTED && token_id != L::F64 && token_id != L::U64 {
+                            if token_id > L::UNQUOTED
+                                && token_id != L::F64
+                                && token_id != L::U64
+                                && token_id != L::I64
+                            {
                                 self.token_tape.alloc().init(BinaryToken::Token(token_id.0));
                                 (d, token_id) = self.parse_next_id(d)?;
                                 if token_id == L::EQUAL {
